@@ -220,6 +220,7 @@ def parseValueU (s : String) : Value :=
 
 /-- one annotation spec as a hint: `-` plain; `cls,opt,shape` Annotated (wrapped in a Union with None when opt) -/
 def specToHint (s : String) : Except String Hint :=
+  if s == "-u" || s == "-o" then .ok .plain else        -- `int | str`, `int | None`: PEP 604 unions of plain types
   if s == "-a" then .ok (.annotated false none) else   -- `Annotated[int, 'count']`: metadata that is no dltype annotation
   match parseAnnSpec s with
   | .absent => .ok .plain
